@@ -396,6 +396,35 @@ Proof.
   intro H. discriminate H.
 Qed.
 
+(* Mol2Atom.assign_radius / Mol2Molecule.assign_radii for ALL pairs of tables
+   (primary, secondary) and ALL types: the radius is the primary table's entry
+   when it has one - under the Sybyl type first, then under the upper-cased
+   element -, otherwise the secondary table's by the same rule; KeyError iff
+   neither table has either key; for an atom the primary table covers the
+   secondary table is irrelevant.  The default arguments give [radius_of]. *)
+Theorem C16_radius_rule :
+  forall (p s : list (string * Z)) (t : string),
+  let e := upper (before_dot t) in
+  (forall r, lookup t p = Some r -> radius_from p s t = Some r) /\
+  (lookup t p = None -> forall r, lookup e p = Some r -> radius_from p s t = Some r) /\
+  (lookup t p = None -> lookup e p = None -> radius_from p s t = radius_from s [] t) /\
+  (radius_from p s t = None <->
+     lookup t p = None /\ lookup e p = None /\ lookup t s = None /\ lookup e s = None) /\
+  (forall s', (lookup t p <> None \/ lookup e p <> None) -> radius_from p s t = radius_from p s' t).
+Proof. exact radius_rule. Qed.
+
+Theorem C16_radius_default_tables : forall t, radius_of t = radius_from ZAP9 BONDI t.
+Proof. exact radius_of_from. Qed.
+
+(* non-vacuity: Bondi as primary, ZAP9 as backup: O.co2 is found under the
+   element in the PRIMARY table (1.52), not under its type in the backup (1.76);
+   with the tables the other way round it is 1.76; Br only from Bondi *)
+Example C16_radius_rule_nonvacuous :
+  radius_from BONDI ZAP9 "O.co2"%string = Some 152%Z /\ radius_from ZAP9 BONDI "O.co2"%string = Some 176%Z /\
+  radius_from ZAP9 BONDI "Br"%string = Some 185%Z /\ radius_from ZAP9 [] "Br"%string = None /\
+  radius_from [("C.3"%string, 190%Z)] BONDI "C.3"%string = Some 190%Z.
+Proof. vm_compute. repeat split. Qed.
+
 Print Assumptions C16_QA_laws.
 Print Assumptions C16_peoe_conserves.
 Print Assumptions C16_peoe_zero_cycles.
@@ -418,3 +447,6 @@ Print Assumptions C16_mol2_bond_id_zero_refuted.
 Print Assumptions C16_mol2_bond_ids_partial.
 Print Assumptions C16_mol2_eight_words_refuted.
 Print Assumptions C16_mol2_nonvacuous.
+Print Assumptions C16_radius_rule.
+Print Assumptions C16_radius_default_tables.
+Print Assumptions C16_radius_rule_nonvacuous.
